@@ -9,12 +9,12 @@ python3-vt - <<'PY'
 import sys, subprocess, os
 sys.path.insert(0, '/verif')
 from vlib import mirdump, replay
-for c in ('zdd', 'core', 'runtime', 'parser', 'cluster', 'cli'):
+for c in ('zdd', 'core', 'runtime', 'parser', 'cluster', 'cli', 'lsp'):
     try:
         p, info = mirdump.dump(c); print('MIR', c, info, flush=True)
     except Exception as e:
         print('MIR dump failed for', c, e, flush=True)
-HOOKED = {'api': '--cfg varpulis_verif'}      # built only with the cfg(varpulis_verif) hooks; rt is built both ways
+HOOKED = {'api': '--cfg varpulis_verif', 'lsp': '--cfg varpulis_verif'}      # built only with the cfg(varpulis_verif) hooks; rt is built both ways
 for r in sorted(os.listdir('/verif/replay')):
     try:
         print('replay helper', replay.build(r, rustflags=HOOKED.get(r)), flush=True)
